@@ -589,7 +589,7 @@ func (c *StructCode) Filter(query *FieldQuery) Code {
 			isAddrForMarshaler: field.isAddrForMarshaler,
 			isNextOpPtrType:    field.isNextOpPtrType,
 		}
-		if len(sub.Fields) > 0 {
+		if len(sub.Fields) > 0 || embedded {
 			fieldCode.value = fieldCode.value.Filter(sub)
 		}
 		if embedded {
